@@ -179,7 +179,7 @@ def incoherent_dedispersion(z, DM, /, *, ref_freq=None):
 
     crop_before = -min(0, delays.min())
     delays += crop_before
-    N = len(z) - max(delays)
+    N = max(0, len(z) - max(delays))  # no sample with all its sources: empty
 
     x = np.stack([z.data[j : j + N, i] for i, j in enumerate(delays)], axis=1)
 
